@@ -253,6 +253,19 @@ var c01TitleToks = []string{"Word", "Two words here", "A longer run of plain wor
 
 func c01Enumerate(tier string, emit func(*eng.Case)) {
 	thorough := tier == "thorough"
+	// 10: the documents of the other checks: without URL, and with a URL (their own or a default)
+	// under each pagination algorithm; every document also through the byte entry point
+	crossEmit(tier, "cross", 1, func(c *eng.Case) {
+		u := c.URL
+		if u == "" {
+			u = "http://example.com/a/b/story.html"
+		}
+		for algo := 0; algo < 2; algo++ {
+			emit(&eng.Case{Kind: "cross", HTML: c.HTML, URL: u, Algo: algo, Flags: 30, P: c.P})
+		}
+		emit(&eng.Case{Kind: "cross", HTML: c.HTML, P: c.P})
+		emit(&eng.Case{Kind: "bytes", HTML: c.HTML, URL: u, P: c.P})
+	})
 	// 1: trees x roots
 	nFull, nCore := 3, 4
 	if thorough {
@@ -495,7 +508,7 @@ func c01Check(c *eng.Case) *eng.Outcome {
 	switch c.Kind {
 	case "bytes":
 		pi = eng.Protect(func() { res, err = distiller.ApplyForReader(bytes.NewReader([]byte(c.HTML)), c01Opts(c)) })
-	case "pager":
+	case "pager", "cross":
 		doc := ora.Parse(c.HTML)
 		pi = eng.Protect(func() { res, err = distiller.Apply(doc, c01Opts(c)) })
 	case "scale":
@@ -625,10 +638,11 @@ func init() {
 		DesignRef: "§5 C01",
 		Rule: "five sub-spaces, each complete to its bound. (1) all ordered trees of hand-built nodes with <= 3 (quick) / <= 4 (thorough) nodes over 33 labels and of 4 / 5 nodes over 12 core labels, x every node as root attached (inside document>html>body) and detached, plus the document node and a bare document; " +
 			"(2) every tree of <= 2 / <= 3 nodes x every node x 11 field mutations (empty Data, upper-case tag, zero/wrong DataAtom, svg namespace, empty Attr slice, duplicate/empty attribute keys, Error/Doctype/Raw node types); (3) trees of <= 2 nodes x nil options and 16 URLs (IPv6, userinfo, non-ASCII host, mailto, relative, placeholder literal, escaped slash, ...) x log-flag sets x SkipPagination x algorithm; " +
-			"(4) a pager whose hrefs are scheme x host x path x query x fragment pieces with <= 2 pieces off default (quick) / full product (thorough) x 14 page URLs (case-folding hosts, placeholder literals, escapes) x both algorithms; (6) every element of the rich host document of C05 (all rendering paths) x 11 taints (hidden, display:none, children removed, aria-hidden, attributes removed, class=sidebar, display:block, contenteditable, class/id values matching both word lists of the link scorers), without URL and with URL under each pagination algorithm, singles and pairs (quick: pairs over the first 3 taints); (9) a scale sweep: one document with n distinct inline styles, classes, ids and link targets for n = 2^e-1, 2^e, 2^e+1 up to 4097 (quick) / 8193 (thorough); (8) ApplyForFile on an existing/missing/directory path and ApplyForURL through a stub transport (HTML, non-HTML, missing content type, transport error, malformed and relative URL, 204) x 5 bodies x nil/non-nil options; (7) every <title> of <= 3 (quick) / <= 4 (thorough) tokens over 29 word/separator tokens (ASCII and full-width colon, dashes, pipes, guillemets, slashes, NBSP, punctuation), with and without an equal h1; (5) all ApplyForReader inputs of <= 3 / <= 4 tokens over 32 byte tokens and 4 / 5 over 12 core tokens, with and without URL. " +
+			"(4) a pager whose hrefs are scheme x host x path x query x fragment pieces with <= 2 pieces off default (quick) / full product (thorough) x 14 page URLs (case-folding hosts, placeholder literals, escapes) x both algorithms; (6) every element of the rich host document of C05 (all rendering paths) x 11 taints (hidden, display:none, children removed, aria-hidden, attributes removed, class=sidebar, display:block, contenteditable, class/id values matching both word lists of the link scorers), without URL and with URL under each pagination algorithm, singles and pairs (quick: pairs over the first 3 taints); (9) a scale sweep: one document with n distinct inline styles, classes, ids and link targets for n = 2^e-1, 2^e, 2^e+1 up to 4097 (quick) / 8193 (thorough); (8) ApplyForFile on an existing/missing/directory path and ApplyForURL through a stub transport (HTML, non-HTML, missing content type, transport error, malformed and relative URL, 204) x 5 bodies x nil/non-nil options; (7) every <title> of <= 3 (quick) / <= 4 (thorough) tokens over 29 word/separator tokens (ASCII and full-width colon, dashes, pipes, guillemets, slashes, NBSP, punctuation), with and without an equal h1; (5) all ApplyForReader inputs of <= 3 / <= 4 tokens over 32 byte tokens and 4 / 5 over 12 core tokens, with and without URL; (10)" + crossRule + " (there: without URL, with URL under each algorithm and all log flags, and through ApplyForReader) " +
 			"Oracle: no panic, step budget (2e7 hook events) not exceeded, worker process survives, and the call returns an error or a result whose Node is a div element. Non-trivial = anything but a plain document root with default options.",
 		Enumerate:        c01Enumerate,
 		Check:            c01Check,
+		Prepare:          func(tier string) { CrossCorpus(tier) },
 		PanicIsViolation: true,
 		Bounds: func(tier string) map[string]any {
 			if tier == "thorough" {
